@@ -352,6 +352,8 @@ func vNewUP4Stack(cells int64) *vUP4Stack {
 }
 
 var vGNBs = [][4]byte{{198, 18, 0, 9}, {198, 18, 0, 10}}
+var vC04FilterMix = 0 // 1: sessions may mix an application-filtered PDR with a default one (H_C04_history)
+
 var vSDFs = []string{"", "permit out ip from 10.1.0.0/16 80-90 to assigned", "permit out udp from 8.8.8.8 53 to assigned"}
 
 // vSessionRules: the rules of session k (k = 0, 1) with shared or unshared
@@ -379,6 +381,16 @@ func vSessionRules(k int) ([]vPDRSpec, []vFARSpec, []vQERSpec) {
 	}
 	up := vPDRSpec{uplink: true, id: 1, prec: 100, teid: uint32(0x1000 + k), n3: [4]byte{198, 18, 0, 1}, ue: ue, farID: 11, qerIDs: []uint32{1}, sdf: sdf}
 	dn := vPDRSpec{uplink: false, id: 2, prec: 100, ue: ue, farID: 12, qerIDs: []uint32{1}, sdf: sdf}
+	// an application-filtered PDR may be followed by a default ("match all") one
+	// of the same session, and the other way round
+	if sdf != "" && vC04FilterMix != 0 {
+		switch vChoose("filter_mix", 3) {
+		case 1:
+			dn.sdf = ""
+		case 2:
+			up.sdf = ""
+		}
+	}
 	// FAR ids deliberately differ from the ids of the PDRs that use them
 	fu := vFARSpec{id: 11, action: ActionForward, uplink: true}
 	fd := vFARSpec{id: 12, action: ActionForward, uplink: false, teid: uint32(0x5000 + k), peer: gnb}
